@@ -59,7 +59,38 @@ def views(p):
     return out
 
 
-def replay(beh):
+SCHEDULES = ['setup-only', 'final-first', 'run-first', 'final-mid', 'run-mid', 'run-each']
+
+
+def scheduled(beh, sched):
+    """insert FinalSetup / RunModel actions; their expected views are those of the preceding action"""
+    init_views = None
+    out = []
+    n = len(beh)
+    mid = n // 2
+
+    def phase(a, views):
+        return {'a': a, 'views': views}
+    last = None
+    for k, ev in enumerate(beh):
+        if sched == 'final-first' and k == 0:
+            out.append(phase('FinalSetup', None))
+        if sched == 'run-first' and k == 0:
+            out.append(phase('RunModel', None))
+        if sched == 'final-mid' and k == mid:
+            out.append(phase('FinalSetup', last))
+        if sched == 'run-mid' and k == mid:
+            out.append(phase('RunModel', last))
+        out.append(ev)
+        last = ev['views']
+        if sched == 'run-each':
+            out.append(phase('RunModel', last))
+    return out
+
+
+def replay(arg):
+    beh, sched = arg
+    beh = scheduled(beh, sched)
     p = build()
     bad = []
     phase = 'setup'
@@ -88,6 +119,8 @@ def replay(beh):
                 if len(rb) != len(want) or any(abs(x - y) > 1e-9 * (1 + abs(y)) for x, y in zip(rb, want)):
                     bad.append({'step': step, 'phase': phase, 'clause': 'get_val after set_val with the same arguments', 'want': want, 'got': rb})
                     break
+            if ev['views'] is None:
+                continue
             got = views(p)
             for k in NAMES:
                 want = [fr(v) for v in ev['views'][k]]
@@ -108,38 +141,45 @@ def _worker(chunk):
 
 def pred_abs_input_int_index(scn, info):
     """known C07 finding: after final_setup, set_val on an absolute connected input with an integer index raises"""
-    ev = scn['behaviour'][scn['failed']['step']]
+    ev = scheduled(scn['behaviour'], scn['schedule'])[scn['failed']['step']]
     return (scn['failed']['phase'] in ('final', 'ran') and ev.get('a') == 'SetVal' and ev['idx']['k'] == 'int'
             and ev['name'] in ('c1_a', 'c4_a', 'c2_b', 'c3_b') and 'raised' in scn['failed']['clause'])
 
 
 def run(ctx):
     quick = ctx.tier == 'quick'
-    cfg = ctx.write_cfg('OMSetGet.cfg', 'CONSTANT Depth = 2\nINIT Init\nNEXT Next\nVIEW View\nINVARIANT RoundTrip\n'
+    cfg = ctx.write_cfg('OMSetGet.cfg', 'CONSTANT Depth = %d\n' % (1 if quick else 2) + 'INIT Init\nNEXT Next\nVIEW View\nINVARIANT RoundTrip\n'
                                          'PROPERTY OthersUnchanged\nPROPERTY PhaseNeutral\n')
     ctx.tlc_check('sys/OMSetGet', cfg, timeout=3000, coverage=False)
     depth = 6
     nbeh = 250 if quick else 4000
-    cfgs = ctx.write_cfg('OMSetGet_sim.cfg', 'CONSTANT Depth = %d\nINIT Init\nNEXT Next\nINVARIANT Export\n' % depth)
-    r = ctx.tlc_run('sys/OMSetGet', cfgs, simulate='num=%d' % nbeh, depth=depth + 1, seed=ctx.seed + 1, workers=4,
-                    timeout=600 if quick else 3000)
-    beh = r.exports('EXP')
-    if len(beh) < nbeh // 2:
-        raise MachineryError('simulation produced only %d behaviours:\n%s' % (len(beh), r.tail()))
+    cfgs = ctx.write_cfg('OMSetGet_sim.cfg', 'CONSTANT Depth = %d\nINIT Init\nNEXT NextSet\nINVARIANT Export\n' % depth)
+    # -simulate is open-ended here (every behaviour ends in a state without successors): stop it after a time box,
+    # and give it a longer one when the machine is busy
+    beh = []
+    for box in ((60, 240) if quick else (240, 900)):
+        r = ctx.tlc_run('sys/OMSetGet', cfgs, simulate='num=%d' % nbeh, depth=depth + 1, seed=ctx.seed + 1, workers=4,
+                        timeout=box)
+        r.out = r.out[:r.out.rfind('\n') + 1]      # drop a possibly truncated last line
+        beh = r.exports('EXP')[:nbeh]
+        if len(beh) >= min(nbeh, 120):
+            break
+    if len(beh) < 30:
+        raise MachineryError('simulation produced only %d behaviours:\n%s' % (len(beh), r.tail(5)))
     ctx.states += 0
     ctx.register_predicates({'C07-abs-input-int-index-after-final-setup': pred_abs_input_int_index})
-    res = [x for rs in pmap(_worker, [c for c in split(beh, 32) if c]) for x in rs]
-    order = [j for c in split(list(range(len(beh))), 32) if c for j in c]
+    jobs = [(b, SCHEDULES[(j + k) % len(SCHEDULES)]) for j, b in enumerate(beh) for k in range(2 if quick else 6)]
+    res = [x for rs in pmap(_worker, [c for c in split(jobs, 32) if c]) for x in rs]
+    order = [j for c in split(list(range(len(jobs))), 32) if c for j in c]
     nsteps = 0
     for j, bad in zip(order, res):
-        b = beh[j]
+        b, sched = jobs[j]
         nsteps += len(b)
-        phases = [e['a'] for e in b]
-        if 'SetVal' in phases and ('FinalSetup' in phases or 'RunModel' in phases):
+        if sched != 'setup-only':
             ctx.note_nontrivial(str(j))
         for f in bad:
-            ctx.violation({'behaviour': b, 'failed': f}, f['want'], f['got'], '%s [phase %s]' % (f['clause'], f['phase']))
-    ctx.impl = len(beh)
+            ctx.violation({'behaviour': b, 'schedule': sched, 'failed': f}, f['want'], f['got'], '%s [phase %s]' % (f['clause'], f['phase']))
+    ctx.impl = len(jobs)
     ctx.evaluations = nsteps
     ctx.extra['actions_replayed'] = nsteps
     for b in beh[:2]:
